@@ -30,6 +30,26 @@ theorem popMeanAdjusted_eq (o : EpochOpts W) (p : Pop W) (species1 : List (Speci
         (ofInt ((p.organisms.length : Nat) : Int)) := by
   unfold popMeanAdjusted; rw [h]; rfl
 
+/-- the documented adjusted fitness of every organism of the population, species by species -/
+def adjustedValues (o : EpochOpts W) (p : Pop W) : List W :=
+  p.species.flatMap (fun s => s.orgs.map (fun x => adjustedFitness o s x.fitness))
+
+/-- **C09 (what the mean is the mean of, Kind A).** If `Population.Organisms` lists exactly the members of the species,
+    each once, the fitness values the code sums for the mean are — up to their order — exactly the documented adjusted
+    fitness values of all organisms of the population, and the divisor is their number. -/
+theorem mean_values_perm (o : EpochOpts W) (p : Pop W) (species1 : List (Species W))
+    (hperm : p.organisms.Perm (C02.orgUids p.species)) (hundup : (C02.orgUids p.species).Nodup)
+    (hadj : adjustAll o p.species = .ok species1) :
+    ((({ p with species := species1 } : Pop W).orgList).map (·.fitness)).Perm (adjustedValues o p) ∧
+    p.organisms.length = (adjustedValues o p).length := by
+  have hu1 := C02.adjustAll_uids o _ _ hadj
+  have h1 := orgList_perm ({ p with species := species1 } : Pop W) (hperm.trans hu1.symm) (hu1.nodup_iff.mpr hundup)
+  have h2 : ((({ p with species := species1 } : Pop W).orgList).map (·.fitness)).Perm (adjustedValues o p) :=
+    (h1.map _).trans (adjustAll_fitness_perm o _ _ hadj)
+  refine ⟨h2, ?_⟩
+  rw [hperm.length_eq]
+  simp [adjustedValues, C02.orgUids, List.length_flatMap]
+
 /-- **C09 (expected offspring, whole preparation phase, both cases of the mean).** For every population with unique
     species ids, every stream and option setting: if `prepareForReproduction` returns, every species `s1` it keeps
     stems from the species `s0` with the same id, and every organism `x` left in it stems from an organism `x0` of `s0`
@@ -186,6 +206,35 @@ theorem popMeanAdjusted_pos (o : EpochOpts K) (p : Pop K) (species1 : List (Spec
     simp only [he, List.filterMap_nil, List.not_mem_nil] at hin
   have : 0 < p.organisms.length := List.length_pos_iff.mpr hne
   exact_mod_cast this
+
+omit [FloorRing K] in
+theorem foldl_add_eq_sum {α : Type} (f : α → K) (l : List α) (a : K) :
+    l.foldl (fun acc y => acc + f y) a = a + (l.map f).sum := by
+  induction l generalizing a with
+  | nil => simp
+  | cons y ys ih => simp only [List.foldl_cons, ih, List.map_cons, List.sum_cons]; ring
+
+omit [FloorRing K] in
+theorem sum_perm {a b : List K} (h : a.Perm b) : a.sum = b.sum := by
+  induction h with
+  | nil => rfl
+  | cons x _ ih => simp [ih]
+  | swap x y l => simp only [List.sum_cons]; ring
+  | trans _ _ ih1 ih2 => exact ih1.trans ih2
+
+/-- **C09 (Kind B): the divisor is the population mean of the adjusted fitness.** In exact arithmetic, for a
+    population whose organism list lists exactly the members of its species: `m` is the sum of the documented adjusted
+    fitness values of all organisms divided by their number. -/
+theorem popMeanAdjusted_is_mean (o : EpochOpts K) (p : Pop K) (species1 : List (Species K))
+    (hperm : p.organisms.Perm (C02.orgUids p.species)) (hundup : (C02.orgUids p.species).Nodup)
+    (hadj : adjustAll o p.species = .ok species1) :
+    popMeanAdjusted o p = (adjustedValues o p).sum / ((adjustedValues o p).length : K) := by
+  obtain ⟨h1, h2⟩ := mean_values_perm o p species1 hperm hundup hadj
+  have hm : popMeanAdjusted o p = popMean ({ p with species := species1 } : Pop K) := by
+    unfold popMeanAdjusted; rw [hadj]
+  rw [hm, popMean_exact, foldl_add_eq_sum (fun x : Org K => x.fitness), zero_add, sum_perm h1]
+  show _ / ((p.organisms.length : Nat) : K) = _
+  rw [h2]
 
 /-- what the Kind-B corollaries use: every organism left as a parent has `fitness ≥ 0`, and its expected offspring is
     `fitness / m` or (zero mean) untouched; with the allocation hypotheses a positive fitness forces `m > 0` -/
